@@ -396,7 +396,7 @@ class Run:
                         vals[k] = x if isinstance(x, (int, bool)) else str(x)
                     self.stats.cex.append({"obligation": name, "finding": fid, "inputs": vals,
                                            "info": info, "case": self.ex.case_label, "soft": soft,
-                                           "notes": dict(self.notes),
+                                           "notes": {k: v for k, v in self.notes.items() if not k.startswith("_")},
                                            "decisions": list(self.decisions)})
             else:
                 self.stats.ob_unknown += 1
